@@ -133,9 +133,13 @@ type Env struct {
 }
 
 // Prepare builds the network, fetcher and cache for a scenario.
-func (sc *Scenario) Prepare() *Env {
+func (sc *Scenario) Prepare() *Env { return sc.PrepareOn(netsim.New()) }
+
+// PrepareOn registers the scenario's routes on an existing network (so that
+// several scenarios with disjoint hosts can share one transport).
+func (sc *Scenario) PrepareOn(net *netsim.Sim) *Env {
 	f := sc.Family()
-	env := &Env{Sc: sc, Net: netsim.New(), Chain: f.Chain(sc.Shapes())}
+	env := &Env{Sc: sc, Net: net, Chain: f.Chain(sc.Shapes())}
 	if sc.CRLRoute == "fetcher" {
 		env.Fetcher = NewFetcher()
 	}
